@@ -6,6 +6,7 @@ import numpy as np
 
 from oracles import images as OI
 
+CALL_VARIANTS = True   # every whitelisted persim call is repeated with its arrays in another memory layout (mc/ctx.py)
 PROPERTY = "C04"
 TOL = 1e-7
 RULE = (
